@@ -72,6 +72,17 @@ def cases(tier, seed):
         shape = (nI, nX, rng.choice([9, 17, 40]))
         src = conv.src_desc(rng, '3d', shape, fmt=rng.choice([1, 5]), hdr={'seed': rng.randrange(1 << 20), 'nfields': rng.randint(1, 4), 'inside': True},
                             valkind='smooth')
+        if i % 6 == 5:
+            # irregular source whose trace count and grid size pad to different 512-byte footer strides; the derived writers that accept
+            # irregular files (re-block, export) follow
+            nI, nX = rng.choice([(12, 12), (10, 13), (9, 15)])
+            while True:
+                holes = conv.pick_holes(rng, nI, nX, max_holes=40)
+                if oracles.pad(4 * (nI * nX - len(holes)), 512) != oracles.pad(4 * nI * nX, 512):
+                    break
+            stages = [['reblock', 'export'][(i // 6) % 2]]
+            src = conv.src_desc(rng, 'irregular', (nI, nX, rng.choice([9, 17])), fmt=5, hdr={'seed': rng.randrange(1 << 20), 'nfields': rng.randint(1, 3), 'inside': True},
+                                valkind='smooth', holes=holes, il=[rng.choice([1, 5, 100]), rng.choice([1, 2])], xl=[rng.choice([1, 20]), rng.choice([1, 3])])
         rate, bs = (2, (4, 4, -1)) if 'reblock' in stages or rng.random() < 0.3 else rng.choice([(4, (4, 4, -1)), (8, (4, 4, -1)), (1, (4, 4, -1))])
         out.append({'id': 'chain:%d:%s' % (i, '-'.join(stages)), 'kind': 'chain', 'src': src, 'rate': rate, 'bs': list(bs), 'stages': stages,
                     'cseed': rng.randrange(1 << 30), 'detection': rng.choice(['heuristic', 'thorough']), 'cost': 4})
@@ -160,7 +171,7 @@ def run_writer(case, ctx):
         hd, extra_fields = {}, {}
         pool = [k for k in KEYS if k not in (189, 193)]
         for k in hr.sample([k for k in pool if k < 189], hr.randint(0, 2)) + hr.sample([k for k in pool if k > 193], hr.randint(0, 2)):
-            a = np.array([[hr.randint(-2 ** 31, 2 ** 31 - 1) for _ in range(nX)] for _ in range(nI)], dtype=hr.choice(['int32', 'int64']))
+            a = np.array([[hr.randint(-2 ** 31, 2 ** 31 - 1) for _ in range(nX)] for _ in range(nI)], dtype=np.dtype(hr.choice(['int32', 'int64', '>i4', '>i8', '<i4'])))
             hd[int(k)] = a
             extra_fields[k] = a.astype(np.int64).reshape(-1)
         if hr.random() < 0.3:
@@ -235,9 +246,9 @@ def run_zgy_writer(case, ctx):
             lo = rng.randrange(nX)
             xr = (lo, rng.randrange(lo + 1, nX + 1))
             zr = None
-            if nZ > sp.bs[2] and rng.random() < 0.7:
-                # crop of the sample range too (whole blocks along z): the float sample axis of a ZGY-sourced file must follow
-                lo = rng.randrange(0, nZ - 1)
+            if nZ > sp.bs[2]:
+                # crop of the sample range too (whole blocks along z, starting beyond the first block): the float sample axis of a ZGY-sourced file must follow
+                lo = rng.randrange(sp.bs[2], nZ - 1) if nZ - 1 > sp.bs[2] else sp.bs[2]
                 zr = (lo, rng.randrange(lo + 1, nZ + 1))
             W = [(a // b * b, min(n_, -(-h // b) * b)) for (a, h), n_, b in ((ir, nI, 4), (xr, nX, 4), (zr or (0, nZ), nZ, sp.bs[2]))]
             with env.quiet():
@@ -299,7 +310,9 @@ def run_chain(case, ctx):
         if case['detection'] == 'heuristic' and not _gen.heuristic_precondition(src['headers']):
             case = dict(case, detection='thorough')       # outside the heuristic's precondition headers may legitimately differ (C04)
         conv.convert_segy(src['path'], cur, rate, bs, detection=case['detection'])
-        truth = truth_for(src, rate, bs, case['detection'], '3d')
+        if src.get('segyio_structured'):
+            return {'nontrivial': False, 'counters': {'skipped_segyio_infers_regular_cube': 1}}
+        truth = truth_for(src, rate, bs, case['detection'], case['src']['geom'])
         truth['bs'] = conv.resolve_bs(rate, bs)
         bad, sp = conform.check(cur, truth, tag='chain-stage0-convert:')
     n, strata = 1, set()
@@ -313,6 +326,8 @@ def run_chain(case, ctx):
         if st == 'reblock':
             if not (sp.rate == 2 and tuple(sp.bs) == (4, 4, 1024)):
                 continue
+            if sp.ntr != sp.grid_traces:
+                strata.add('irregular-reblock-chain')
             with env.quiet():
                 with SgzConverter(cur) as c:
                     c.convert_to_adv_sgz(nxt)
@@ -344,13 +359,32 @@ def run_chain(case, ctx):
             with env.quiet():
                 with SgzConverter(cur) as c:
                     c.convert_to_segy(sgy)
-            with segyio.open(sgy, strict=False) as f:
-                D = np.ascontiguousarray(segyio.tools.cube(f), dtype=np.float32)
+            irregular = sp.ntr != sp.grid_traces
+            if irregular:
+                # the export of an irregular file is an irregular SEG-Y again: its traces sit at the populated grid positions, holes are zero
+                m = np.asarray(sp.mask()).reshape(-1)
+                from .. import gen as _g
+                tr = _g.source_traces(sgy)          # (segyio's trace iterator re-uses its buffers: copy every trace)
+                with segyio.open(sgy, strict=False) as f:
+                    if not f.unstructured:
+                        continue          # segyio itself takes the export for a regular cube (C08's known finding): not decided here
+                D = np.zeros((nI * nX, nZ), np.float32)
+                D[np.flatnonzero(m)] = tr
+                D = D.reshape(nI, nX, nZ)
+            else:
+                with segyio.open(sgy, strict=False) as f:
+                    D = np.ascontiguousarray(segyio.tools.cube(f), dtype=np.float32)
             r2, b2 = rng.choice([(sp.rate, (4, 4, -1)), (4, (4, 4, -1)), (2, (4, 4, -1))])
             conv.convert_segy(sgy, nxt, r2, b2, detection='thorough')
             F2 = dict(F)
             t = {'shape': D.shape, 'rate': r2, 'bs': conv.resolve_bs(r2, b2), 'ilines': sp.ilines(), 'xlines': sp.xlines(), 'samples': sp.samples(),
-                 'ntraces': sp.ntr, 'data_image': oracles.image(D, r2), 'fields': F2, 'file_header': sp.file_header}
+                 'ntraces': sp.ntr, 'data_image': oracles.image(D, r2, 'zero' if irregular else 'edge'), 'fields': F2, 'file_header': sp.file_header}
+            if irregular:
+                # header values exist at populated positions only: a field that is constant over the traces may come back as a stored
+                # array holding zeros at the holes
+                t['fields'] = {k: np.where(m, a, 0) for k, a in F2.items()}
+                t['field_mask'] = m
+                strata.add('irregular-export-chain')
         strata.add('stage:' + st)
         if 'file' in case:
             strata.add('legacy-source:%s' % ('padded' if sp.post_021 else 'unpadded'))
@@ -573,7 +607,7 @@ def sample_view(case, res):
 
 def finalize(tier, cases, results, counters, strata):
     reasons = []
-    need = ['writer:3d', 'writer:irregular', 'writer:2d', 'writer:numpy', 'repo-tests', 'writer:VdsConverter', 'writer:ZgyConverter', 'writer:zgy-generated', 'zgy-stage:crop', 'zgy-crop-z:yes', 'zgy-stage:reblock', 'stage:crop',
+    need = ['writer:3d', 'writer:irregular', 'writer:2d', 'writer:numpy', 'irregular-reblock-chain', 'irregular-export-chain', 'repo-tests', 'writer:VdsConverter', 'writer:ZgyConverter', 'writer:zgy-generated', 'zgy-stage:crop', 'zgy-crop-z:yes', 'zgy-stage:reblock', 'stage:crop',
             'stage:reblock', 'stage:export', 'detection:heuristic', 'detection:thorough', 'detection:exhaustive', 'detection:strip',
             'version-space', 'version-strings', 'version-gates', 'gate-writer', 'gate-reader', 'footer4n%512=0', 'narr>=3', 'legacy-source:unpadded', 'legacy-source:padded']
     for s in need:
